@@ -12,7 +12,9 @@ SPEC = {
             "6 (quick) / 8 (thorough) x delimiters {',',' ','a','\\0'} x max_splits {0,1,2,3,len,SIZE_MAX} (lengths 7-8: all of these for ',', "
             "max_splits {0,2} and no wide variant for the other delimiters), plus every string over "
             "{',','x','[',']','{','>','<','\\'','\\\\'} up to 5/7; join: every list of up to 4/6 items from {\"\",\"a\",\",\",\"ab\",\"\\0\"} "
-            "in vector/deque/list with char, const char*, std::string and literal delimiters; strip_*/skip_* (both overloads, every "
+            "in deque<string> with const char* delimiters (main harness; vector/list and char, std::string, literal delimiters, "
+            "join(split) with char/std::string incl. NUL delimiter, strip_trailing_zeroes<wstring> and strip_multiline_comments<wstring> "
+            "run in the separate optional_build stage c08-wide); strip_*/skip_* (both overloads, every "
             "offset): every string over {' ','\\t','\\r','\\n','a','\\0'} up to 6/8; strip_multiline_comments: every string over "
             "{'/','*','\\n','a','\\0'} up to 8/10; starts_with/ends_with: all pairs over {'a','b','\\0'}; toupper/tolower: all 1- and "
             "2-byte strings; str_replace_all: every string over {'a','b','\\0'} up to 7/10 x 8 targets x 7 replacements; split_args: "
@@ -22,7 +24,8 @@ SPEC = {
             "through every helper; string_printf/string_vprintf/wstring_printf producing every length 0..72/80 (both sides of 2*len(fmt)+16), "
             "both sides of 0x400, 0x800, 4 KiB, 64 KiB and 2^20 bytes / 2^18 (thorough 2^20) wide chars, each case once per stale errno "
             "value in {0,EILSEQ,ERANGE,EINVAL,ENOMEM} set immediately before the call; every other call into phosg is preceded by "
-            "vf::poison_errno(). "
+            "vf::poison_errno(); printf outputs with embedded NULs (%c/%lc with 0 at start, middle, end, several, only NULs) "
+            "along the same length ladder, compared by length and bytes. "
             "distinct_nontrivial = distinct (helper, input shape) classes, e.g. split:leading-delim:cap-binds, "
             "split_context-rejected:inner-delim:unlimited, join:deque:cstr:first-empty, args:shlex:dquote+escape:2-4-tokens.",
     "level_text": "Every helper named by the property is executed on all inputs of a small scope chosen to contain the corner "
@@ -33,6 +36,9 @@ SPEC = {
         {"name": "c08", "variant": "asan", "shards": (16, 16), "extra_link": _WRAP},
         {"name": "c08", "tag": "c08-shlex", "variant": "asan", "shards": (8, 16), "args": ["only=shlex"],
          "args_fn": _oracle.shlex_case_args, "extra_link": _WRAP},
+        # less common instantiations of the generic templates (wstring strip_*, join over vector/list with char /
+        # std::string delimiters); skipped, not fatal, if they no longer compile against the tree
+        {"name": "c08_wide", "tag": "c08-wide", "variant": "asan", "shards": (8, 16), "optional_build": True},
     ],
     "min_evaluations": 1000000,
     "min_classes": {"quick": 150, "thorough": 150},
@@ -40,13 +46,18 @@ SPEC = {
         "split:empty:*", "split:only-delims:*", "split:leading-delim:cap-binds", "split:trailing-delim:unlimited",
         "wsplit:both-ends-delim:*", "split_context:leading-delim:*", "split_context:inner-delim:cap-binds",
         "split_context-rejected:*", "split_context-ambiguous:*",
-        "join:vector:char:first-empty", "join:deque:cstr:first-empty", "join:list:string:first-empty", "join:no-delimiter",
+        "join:deque:cstr:first-empty", "join:deque:cstr-empty:first-nonempty", "join:deque:cstr-long:no-items", "join:no-delimiter",
+        "join:vector:char:first-empty", "join:list:string:first-empty", "join-split:vector:nul-delimiter",
+        "strip_trailing_zeroes-wstring:all-zeroes", "comments-wstring:unterminated:newlines",
         "strip:all-whitespace", "strip:both-ends", "strip:trailing-nul", "skip:*:embedded-nul",
-        "comments:closed:newlines", "comments:unterminated:*", "starts_with:*:true", "ends_with:affix-longer:false",
+        "comments:closed:newlines", "comments:unterminated:newlines", "comments:unterminated:plain", "starts_with:*:true", "ends_with:affix-longer:false",
         "case:byte-high", "str_replace_all:match-at-end:grows", "str_replace_all:match-at-start:shrinks",
         "split_args:total:threw:*", "split_args:total:returned:*+nul",
         "args:shlex:error:*", "args:shlex:dquote+escape:*", "args:shlex:squote:*", "args:shlex:escape:*",
-        "random:strip:*", "random:wsplit:wide-code-points",
+        "random:strip:*", "random:wsplit:wide-code-points", "random:comments:unterminated:newlines",
+        "printf:output-nul:at-start", "printf:output-nul:in-middle", "printf:output-nul:at-end", "printf:output-nul:several",
+        "printf:output-nul:only-nuls", "wprintf:output-nul:at-start", "wprintf:output-nul:in-middle", "wprintf:output-nul:at-end",
+        "wprintf:output-nul:several", "wprintf:output-nul:only-nuls",
         "printf:errno-EILSEQ:len>=1Mi", "printf:errno-ENOMEM:len1Ki", "printf:errno-0:len0", "printf:errno-ERANGE:len<1Ki",
         "wprintf:result-at-least-2x-format+16:*", "wprintf:result-below-2x-format+16:*", "wprintf:result-not-longer-than-format:*",
         "wprintf:errno-EILSEQ:result-at-least-2x-format+16", "wprintf:errno-0:result-at-least-2x-format+16",
